@@ -129,6 +129,9 @@ def worlds(tier):
     ws.append({"name": "workers", "kind": "workers", "split": 4})
     if tier == "thorough":
         ws.append({"name": "cond4-closed-loop", "kind": "workload", "shape": "cond", "policy": "closed_loop", "variance": [0, 50], "split": 7, "weight": 60})
+        ws.append({"name": "chain2-closed-loop-with-flags-every-invocation-and-concurrency", "kind": "workload", "shape": "chain2", "policy": "closed_loop", "variance": [0, 50], "flags": True, "split": 9, "weight": 400})
+        ws.append({"name": "fork3-slo-nodes-periodic-with-override", "kind": "workload", "shape": "fork-slo", "policy": "periodic", "variance": None, "flags": True, "override_slo": True, "split": 8, "weight": 200})
+        ws.append({"name": "fork3-two-strategy-profiles-closed-loop", "kind": "workload", "shape": "fork", "policy": "closed_loop", "variance": [10, 10], "split": 8, "weight": 200})
         ws.append({"name": "two-graphs-poisson+gamma", "kind": "workload", "shape": "two", "policy": "poisson", "variance": [10, 10], "split": 7, "weight": 60, "second_policy": "gamma"})
     return ws
 
